@@ -2,7 +2,8 @@ import CalicoVerif.Util.Proto
 import CalicoVerif.Model.C12
 /-! Driver for C12.  Op: `chk p=<proto> [s=<hex8> d=<hex8>] t=<tiers> f=<profiles>` → `alp=<v> bpf=<v> ipt=<v>`
 (tiers `|`-separated `<D|P>:<policy>/<policy>`; policy (`~` prefix = staged) / profile = `,`-separated rules
-`<a|d|p|n|l>.<proto|x>.<notproto|x>[.<src>.<notsrc>.<dst>.<notdst>]`, CIDR lists `+`-separated `<hex8>_<len>` or `x`;
+`<a|d|p|n|l>.<proto|x>.<notproto|x>[.<src>.<notsrc>.<dst>.<notdst>[.<ipVersion>]]`, CIDR lists `+`-separated
+`<hex8>_<len>` (IPv4) / `<hex32>_<len>` (IPv6) or `x`;
 `_` = no rules, `-` = none; default flow 10.0.0.1 → 10.0.0.2). -/
 open CalicoVerif CalicoVerif.C11 CalicoVerif.C12 CalicoVerif.Proto
 
@@ -22,9 +23,9 @@ def parseHex (s : String) : Option Nat :=
 def parseNet (s : String) : Option Net :=
   match s.splitOn "_" with
   | [a, l] => do
-    let a ← parseHex a
+    let v ← parseHex a
     let l ← l.toNat?
-    some { v6 := false, addr := a, pfx := l }
+    some { v6 := a.length == 32, addr := v, pfx := l }
   | _ => none
 
 def parseNets (s : String) : Option (List Net) :=
@@ -50,6 +51,17 @@ def parseRule (s : String) : Option Rule :=
     let dn ← parseNets dn
     let ndn ← parseNets ndn
     some { action := act, protocol := pr, notProtocol := np, srcNet := sn, notSrcNet := nsn, dstNet := dn, notDstNet := ndn }
+  | [a, pr, np, sn, nsn, dn, ndn, ver] => do
+    let act ← parseAct a
+    let pr ← parsePr pr
+    let np ← parsePr np
+    let sn ← parseNets sn
+    let nsn ← parseNets nsn
+    let dn ← parseNets dn
+    let ndn ← parseNets ndn
+    let ver ← ver.toNat?
+    some { action := act, ipVersion := ver, protocol := pr, notProtocol := np, srcNet := sn, notSrcNet := nsn,
+           dstNet := dn, notDstNet := ndn }
   | _ => none
 
 def parseRules (s : String) : Option Policy :=
